@@ -334,6 +334,57 @@ def r182(ctx, repo):
            label="siblings subtract the same background")
 
 
+STAT_FUNCS = ("np.mean", "np.std", "np.percentile", "np.nanmean",
+              "np.nanstd", "np.median", "np.nanpercentile")
+
+
+def _stat_dispatch(fn, q):
+    """{loop variable: [numpy statistics]} for loops over the values of a
+    local table of statistic functions (``for name, func in T.items()``,
+    ``for func in T.values()``)"""
+    out = {}
+    for lp in walk(fn):
+        if not isinstance(lp, ast.For) or not isinstance(lp.iter, ast.Call) \
+                or not isinstance(lp.iter.func, ast.Attribute) \
+                or lp.iter.func.attr not in ("items", "values") \
+                or not isinstance(lp.iter.func.value, ast.Name):
+            continue
+        table = lp.iter.func.value.id
+        if lp.iter.func.attr == "items":
+            if not (isinstance(lp.target, ast.Tuple) and len(
+                    lp.target.elts) == 2 and isinstance(
+                    lp.target.elts[1], ast.Name)):
+                continue
+            var = lp.target.elts[1].id
+        else:
+            if not isinstance(lp.target, ast.Name):
+                continue
+            var = lp.target.id
+        vals = []
+        for n in walk(fn):
+            if isinstance(n, ast.Assign):
+                for t in n.targets:
+                    if isinstance(t, ast.Name) and t.id == table:
+                        if isinstance(n.value, ast.Dict):
+                            vals += list(n.value.values)
+                        elif isinstance(n.value, ast.Call) and call_name(
+                                n.value) == "dict" and not n.value.args:
+                            vals += [k.value for k in n.value.keywords]
+                        else:
+                            vals.append(None)
+                    elif isinstance(t, ast.Subscript) and isinstance(
+                            t.value, ast.Name) and t.value.id == table:
+                        vals.append(n.value)
+        funcs = [txt(v) if v is not None else None for v in vals]
+        if not funcs or not any(f in STAT_FUNCS for f in funcs):
+            continue        # not a table of statistics
+        if any(f not in STAT_FUNCS for f in funcs):
+            raise AnalysisError(f"{q}: table `{table}` mixes statistics with "
+                                f"{[f for f in funcs if f not in STAT_FUNCS]}")
+        out[var] = funcs
+    return out
+
+
 def _r182(ctx, repo, bg_kinds):
     for rel, q, bc in ((BRIGHT, "get_bright", False),
                        (BC, "get_bright_bc", True),
@@ -342,11 +393,22 @@ def _r182(ctx, repo, bg_kinds):
         loops = [n for n in walk(fn) if isinstance(n, ast.For)
                  and isinstance(n.target, ast.Name)]
         stats = []
+        stat_names = {}
+        seen_calls = set()
+        dispatch = _stat_dispatch(fn, q)
         for lp in loops:
             for c in walk(lp):
-                if isinstance(c, ast.Call) and call_name(c) in (
-                        "np.mean", "np.std", "np.percentile", "np.nanmean",
-                        "np.nanstd", "np.median", "np.nanpercentile"):
+                if not isinstance(c, ast.Call) or id(c) in seen_calls:
+                    continue
+                if call_name(c) in STAT_FUNCS:
+                    seen_calls.add(id(c))
+                    stat_names[id(c)] = [call_name(c)]
+                    stats.append((lp, c))
+                elif isinstance(c.func, ast.Name) and c.func.id in dispatch:
+                    # func(...) with func iterating over a table of numpy
+                    # statistics: one statistic per table entry
+                    seen_calls.add(id(c))
+                    stat_names[id(c)] = dispatch[c.func.id]
                     stats.append((lp, c))
         if not stats:
             raise AnalysisError(f"{q}: statistics loop not found")
@@ -376,12 +438,13 @@ def _r182(ctx, repo, bg_kinds):
                 a.value, ast.Name) and a.value.id in img_names
                 and isinstance(a.slice, ast.Name)
                 and a.slice.id in msk_names)
-            ctx.ob("R18.2", ok,
-                   f"{call_name(c)} is taken over the event's image under "
-                   f"the event's mask" if ok else
-                   f"{call_name(c)} is taken over `{txt(a)}`, not over the "
-                   f"event image restricted to the event mask", node=c,
-                   label=f"masked statistic {call_name(c)}")
+            for sname in stat_names[id(c)]:
+                ctx.ob("R18.2", ok,
+                       f"{sname} is taken over the event's image under "
+                       f"the event's mask" if ok else
+                       f"{sname} is taken over `{txt(a)}`, not over the "
+                       f"event image restricted to the event mask", node=c,
+                       label=f"masked statistic {sname}")
         if not bc:
             continue
         name = sorted(img_names)[0]
@@ -984,7 +1047,24 @@ def r185(ctx, repo):
     it = L.Interp(repo)
     np_ = L.NPModel()
     np_.linalg = L.namespace("np.linalg", inv=_inv, det=_det)
-    env = it.env(CT, {"np": np_})
+    ext = {"np": np_}
+    for st in repo.tree(CT).body:
+        if isinstance(st, ast.ImportFrom) and st.level == 0 and st.module in (
+                "numpy", "numpy.linalg"):
+            src_ns = np_ if st.module == "numpy" else np_.linalg
+            for a in st.names:
+                try:
+                    ext[a.asname or a.name] = getattr(src_ns, a.name)
+                except (AttributeError, AnalysisError):
+                    raise AnalysisError(f"fl_crosstalk: `{st.module}."
+                                        f"{a.name}` is not modelled")
+        elif isinstance(st, ast.Import):
+            for a in st.names:
+                if a.name == "numpy":
+                    ext[a.asname or "numpy"] = np_
+                elif a.name == "numpy.linalg" and a.asname:
+                    ext[a.asname] = np_.linalg
+    env = it.env(CT, ext)
     cc_node = repo.func(CT, "correct_crosstalk")
     gm_node = repo.func(CT, "get_compensation_matrix")
     cc = env.lookup("correct_crosstalk")
@@ -1298,9 +1378,18 @@ def r187(ctx, repo):
                 s.targets[0].value) == "m":
             mu[const_str(s.targets[0].slice)] = s
         if isinstance(s, ast.Assign) and isinstance(
-                s.targets[0], ast.Name) and s.targets[0].id in ("cx", "cy") \
-                and isinstance(s.value, ast.BinOp):
-            cxy[s.targets[0].id] = s.value
+                s.targets[0], ast.Name) and s.targets[0].id in ("cx", "cy"):
+            v = s.value
+            if isinstance(v, ast.IfExp):
+                # m10/m00 if <area> else 0 (or mirrored)
+                alts = [x for x in (v.body, v.orelse)
+                        if not isinstance(x, ast.Constant)]
+                if len(alts) != 1:
+                    raise AnalysisError("cont_moments_cv: conditional centre "
+                                        "of gravity not recognised")
+                v = alts[0]
+            if isinstance(v, ast.BinOp):
+                cxy[s.targets[0].id] = v
     if set(cxy) != {"cx", "cy"}:
         raise AnalysisError("cont_moments_cv: centre of gravity lost")
     menv = {}
@@ -1897,4 +1986,111 @@ TWINS = list(TWINS) + [
     ("prnc: copy via astype", INERT,
      (_PRNC_COPY,
       "        cc = np.asarray(cont[ii]).astype(np.float64)\n")),
+]
+
+# round-2 refactorings /verif/campaign/refactorings_round2/C18/refactor2-4
+TWINS = list(TWINS) + [
+    ("moments: centroid as conditional expressions", INERT,
+     ("        if m[\"m00\"] > dbl_epsilon:\n"
+      "            # Center of gravity\n"
+      "            cx = m[\"m10\"]/m[\"m00\"]\n"
+      "            cy = m[\"m01\"]/m[\"m00\"]\n"
+      "        else:\n"
+      "            cx = 0\n"
+      "            cy = 0\n",
+      "        has_area = m[\"m00\"] > dbl_epsilon\n"
+      "        cx = m[\"m10\"]/m[\"m00\"] if has_area else 0\n"
+      "        cy = m[\"m01\"]/m[\"m00\"] if has_area else 0\n")),
+    ("inertia ratios: moments bound by a walrus test", INERT,
+     lambda s: s.replace(
+         "        moments = cont_moments_cv(cont[ii])\n"
+         "        if moments is not None:\n",
+         "        if (moments := cont_moments_cv(cont[ii])) is not None:\n"
+     ).replace(
+         "        moments = cont_moments_cv(cc)\n\n"
+         "        if moments is not None:\n",
+         "\n        if (moments := cont_moments_cv(cc)) is not None:\n")),
+    ("bright: metrics dispatched through a table of numpy functions", BRIGHT,
+     [("    # Results are stored in a separate array initialized with nans\n"
+       "    if ret_avg:\n"
+       "        avg = np.zeros(length, dtype=np.float64) * np.nan\n"
+       "    if ret_std:\n"
+       "        std = np.zeros(length, dtype=np.float64) * np.nan\n",
+       "    metric_funcs = {}\n"
+       "    if ret_avg:\n"
+       "        metric_funcs[\"avg\"] = np.mean\n"
+       "    if ret_std:\n"
+       "        metric_funcs[\"sd\"] = np.std\n"
+       "    data = {name: np.zeros(length, dtype=np.float64) * np.nan\n"
+       "            for name in metric_funcs}\n"),
+      ("        if ret_avg:\n"
+       "            avg[ii] = np.mean(imgi[mski])\n"
+       "        if ret_std:\n"
+       "            std[ii] = np.std(imgi[mski])\n",
+       "        for name, func in metric_funcs.items():\n"
+       "            data[name][ii] = func(imgi[mski])\n"),
+      ("    results = []\n"
+       "    # Keep alphabetical order\n"
+       "    if ret_avg:\n"
+       "        results.append(avg)\n"
+       "    if ret_std:\n"
+       "        results.append(std)\n",
+       "    results = list(data.values())\n")]),
+    ("crosstalk: from-import of inv, constants, tuple unpacking", CT,
+     [("import numpy as np\n",
+       "import numpy as np\nfrom numpy.linalg import inv\n\n"
+       "_FL_CHANNELS = (1, 2, 3)\n"),
+      ("    ct11 = 1\n    ct22 = 1\n    ct33 = 1\n",
+       "    ct11 = ct22 = ct33 = 1\n"),
+      ("    return np.linalg.inv(crosstalk)", "    return inv(crosstalk)"),
+      ("    if fl_channel not in [1, 2, 3]:",
+       "    if fl_channel not in _FL_CHANNELS:"),
+      ("    col = minv[:, fl_channel - 1].flatten()\n"
+       "    flout = col[0] * fl1 + col[1] * fl2 + col[2] * fl3\n"
+       "    return flout\n",
+       "    coeff1, coeff2, coeff3 = minv[:, fl_channel - 1].flatten()\n"
+       "    return coeff1 * fl1 + coeff2 * fl2 + coeff3 * fl3\n")]),
+]
+
+MUTANTS = list(MUTANTS) + [
+    ("dispatch table: statistic over the unmasked image", BRIGHT,
+     [("    # Results are stored in a separate array initialized with nans\n"
+       "    if ret_avg:\n"
+       "        avg = np.zeros(length, dtype=np.float64) * np.nan\n"
+       "    if ret_std:\n"
+       "        std = np.zeros(length, dtype=np.float64) * np.nan\n",
+       "    metric_funcs = {}\n"
+       "    if ret_avg:\n"
+       "        metric_funcs[\"avg\"] = np.mean\n"
+       "    if ret_std:\n"
+       "        metric_funcs[\"sd\"] = np.std\n"
+       "    data = {name: np.zeros(length, dtype=np.float64) * np.nan\n"
+       "            for name in metric_funcs}\n"),
+      ("        if ret_avg:\n"
+       "            avg[ii] = np.mean(imgi[mski])\n"
+       "        if ret_std:\n"
+       "            std[ii] = np.std(imgi[mski])\n",
+       "        for name, func in metric_funcs.items():\n"
+       "            data[name][ii] = func(imgi)\n"),
+      ("    results = []\n"
+       "    # Keep alphabetical order\n"
+       "    if ret_avg:\n"
+       "        results.append(avg)\n"
+       "    if ret_std:\n"
+       "        results.append(std)\n",
+       "    results = list(data.values())\n")], "R18.2"),
+    ("centroid conditional: y centred with the x moment", INERT,
+     ("        if m[\"m00\"] > dbl_epsilon:\n"
+      "            # Center of gravity\n"
+      "            cx = m[\"m10\"]/m[\"m00\"]\n"
+      "            cy = m[\"m01\"]/m[\"m00\"]\n"
+      "        else:\n"
+      "            cx = 0\n"
+      "            cy = 0\n",
+      "        has_area = m[\"m00\"] > dbl_epsilon\n"
+      "        cx = m[\"m10\"]/m[\"m00\"] if has_area else 0\n"
+      "        cy = m[\"m10\"]/m[\"m00\"] if has_area else 0\n"), "R18.7"),
+    ("imported inv replaced by the transpose", CT,
+     ("    return np.linalg.inv(crosstalk)", "    return crosstalk.T"),
+     "R18.5"),
 ]
